@@ -203,6 +203,10 @@ def gen(ctx, seed, tier):
                         cases.append("E %s %s D %s %s 0 %s" % (a, b, al1, al2, scr))
                         cases.append("E %s %s D %s %s 0 %s" % (b, a, al1, al2, scr))
     cases += ["E M M D A A 0 -", "E M M P A A 0 -"]
+    # relation C: two different files whose inode numbers collide across devices (only (st_dev, st_ino) names a file)
+    coll = [c.replace(" D ", " C ", 1) for c in cases if c.startswith("E ") and " D " in c and c.endswith(" -")]
+    r.shuffle(coll)
+    cases += coll[:(400 if thorough else 60)]
     # T: all kinds
     for k in ["R", "D", "LR", "LD", "LX", "F", "S", "C", "M"]:
         for size in ([0, 1, 4096, 4097, 100000] if k in ("R", "LR") else [0]):
@@ -254,7 +258,8 @@ CANON_PATHS = ["/", "//", "///", "/.", "/..", "/../..", "/tmp/..", "/tmp/../", "
 def run_model(ctx, cases):
     # N cases: zix_canonical_path is outside the Coq models; its oracle is realpath(3), evaluated by the C driver on the
     # same path, so the expected line is a constant
-    rest = [c for c in cases if not c.startswith("N ")]
+    # relation C is relation D for the model: the two are different files
+    rest = [c.replace(" C ", " D ", 1) if c.startswith("E ") else c for c in cases if not c.startswith("N ")]
     ms, ss = ctx.run_model("drv_c15", rest, timeout=1500) if rest else ([], [])
     ms, ss = iter(ms), iter(ss)
     M, S = [], []
